@@ -77,6 +77,13 @@ impl CountMinSketch {
     }
 }
 
+#[cfg(feature = "verif-hooks")]
+impl CountMinSketch {
+    pub(crate) fn verif_rows(&self) -> alloc::vec::Vec<alloc::vec::Vec<u8>> {
+        self.rows.iter().map(|r| r.verif_bytes()).collect()
+    }
+}
+
 #[cfg(test)]
 mod test {
     use crate::lfu::tinylfu::sketch::CountMinSketch;
